@@ -46,8 +46,102 @@ def bad_py(tok, rnd):
 # ---------------------------------------------------------------------------------------------
 # generator
 # ---------------------------------------------------------------------------------------------
-def gen_case(seed, idx, profile):
-    """profile: 'alloc' (C02), 'tree' (C03), 'names' (C18)"""
+def exh_alphabet(k):
+    """operation alphabet of the bounded-exhaustive profile: every (size, address, alignment) class of
+    add_resource on an 8-word map (inside, at the top, past the end, unaligned), align_to, freeze,
+    and windows of two widths (named/anonymous, implicit/explicit). Smaller for longer sequences."""
+    full = k <= 2
+    A = []
+    for size in ((0, 1, 2, 3, 8) if full else (0, 1, 3)):
+        for addr in ((None, 0, 1, 2, 4, 6, 7, 8) if full else (None, 0, 2, 7)):
+            for al in ((None, 1, 2) if full else (None, 1)):
+                A.append(("res", size, addr, al))
+    for a in ((0, 1, 2) if full else (1,)):
+        A.append(("align", a))
+    A.append(("freeze",))
+    for caw in (1, 2):
+        for addr in ((None, 0, 4, 6) if full else (None, 4)):
+            for anon in (0, 1):
+                A.append(("win", caw, addr, anon))
+    return A
+
+
+def gen_exh(idx, k):
+    """case `idx` of the bounded-exhaustive enumeration: all operation sequences of length k over
+    `exh_alphabet(k)` on a root map of 8 words, map alignment 0 or 1 (top digit)"""
+    A = exh_alphabet(k)
+    digits = []
+    x = idx
+    for _ in range(k):
+        digits.append(x % len(A))
+        x //= len(A)
+    ral = x % 2
+    ops = [("new", 0, 3, 8, ral)]
+    nmaps, nres = 1, 0
+    for j, d in enumerate(digits):
+        a = A[d]
+        if a[0] == "res":
+            ops.append(("res", 0, nres, (f"n{j}",), a[1], a[2], a[3]))
+            nres += 1
+        elif a[0] == "align":
+            ops.append(("align", 0, a[1]))
+        elif a[0] == "freeze":
+            ops.append(("freeze", 0))
+        else:
+            ch = nmaps
+            nmaps += 1
+            ops.append(("new", ch, a[1], 8, 0))
+            ops.append(("res", ch, nres, (f"c{j}",), 1, None, None))
+            nres += 1
+            ops.append(("win", 0, ch, None if a[3] else (f"w{j}",), a[2], None))
+    return {"ops": ops, "profile": "alloc", "nres": nres + 3, "root": 0}
+
+
+def exh_count(k):
+    return 2 * len(exh_alphabet(k)) ** k
+
+
+def exh_names(k):
+    parts = ["a", "b", "0", 0, 1] if k <= 2 else ["a", "0", 0]
+    return [(x,) for x in parts] + [(x, y) for x in parts for y in parts]
+
+
+def gen_exh_names(idx, k):
+    """bounded-exhaustive C18 histories: all sequences of length k of {resource named n, named window
+    n, anonymous window whose map holds a resource named n} over every name of length <= 2 on a small
+    adversarial alphabet, in one roomy root map"""
+    N = exh_names(k)
+    base = 3 * len(N)
+    ops = [("new", 0, 20, 8, 0)]
+    nmaps, nres, x = 1, 0, idx
+    for j in range(k):
+        d = x % base
+        x //= base
+        kind, nm = d // len(N), N[d % len(N)]
+        if kind == 0:
+            ops.append(("res", 0, nres, nm, 1, None, None))
+            nres += 1
+        else:
+            ch = nmaps
+            nmaps += 1
+            ops.append(("new", ch, 4, 8, 0))
+            ops.append(("res", ch, nres, nm if kind == 2 else ("inner",), 1, None, None))
+            nres += 1
+            ops.append(("win", 0, ch, nm if kind == 1 else None, None, None))
+    ops.append(("all", 0))
+    return {"ops": ops, "profile": "names", "nres": nres + 3, "root": 0}
+
+
+def exh_names_count(k):
+    return (3 * len(exh_names(k))) ** k
+
+
+def gen_case(seed, idx, profile, k=None):
+    """profile: 'alloc' (C02), 'tree' (C03), 'names' (C18), 'exh' (C02, bounded-exhaustive, length k)"""
+    if profile == "exh":
+        return gen_exh(idx, k)
+    if profile == "exhnames":
+        return gen_exh_names(idx, k)
     rnd = lib.rng_for(seed, idx, {"alloc": 11, "tree": 22, "names": 33}[profile])
     rnd2 = lib.rng_for(seed, idx, {"alloc": 12, "tree": 23, "names": 34}[profile])   # later additions draw from their own stream
     ops = []
